@@ -44,8 +44,10 @@ def freq_sets(fn_list):
 
 
 def forces(n, nf):
-    base = (np.array([[1.0, -2.0, 0.5, 3.0], [0.5, 1.5, -1.0, 2.0], [-2.0, 1.0, 1.0, -0.5], [3.0, -1.0, 2.0, 0.5]])[:n, :nf]
-            + 1j * np.array([[0.3, 1.0, -0.7, 0.0], [-1.0, 0.2, 0.4, 1.1], [0.0, -0.6, 2.0, 0.9], [1.2, 0.0, -0.3, 0.8]])[:n, :nf])
+    base = (np.array([[1.0, -2.0, 0.5, 3.0], [0.5, 1.5, -1.0, 2.0], [-2.0, 1.0, 1.0, -0.5], [3.0, -1.0, 2.0, 0.5], [0.7, 2.2, -1.1, -3.0],
+                      [-1.3, 0.6, 2.4, 1.0]])[:n, :nf]
+            + 1j * np.array([[0.3, 1.0, -0.7, 0.0], [-1.0, 0.2, 0.4, 1.1], [0.0, -0.6, 2.0, 0.9], [1.2, 0.0, -0.3, 0.8], [0.4, -0.9, 0.6, 0.0],
+                             [-0.2, 0.5, 1.0, -1.4]])[:n, :nf])
     unit = np.zeros((n, nf), complex)
     unit[0, :] = 1.0
     return {"dense": base, "unit0": unit}
@@ -169,10 +171,14 @@ def run_system(sysd, tier, res, fsets=None):
                 if fname == "unit0" and (incrb not in ("dva", "") or rdo):
                     continue
                 refs = {}
-                for solver in ("SolveUnc", "FreqDirect"):
+                for solver in ("SolveUnc", "FreqDirect", "SolveUnc(h)", "SolveUnc(rfrev)", "FreqDirect(rfrev)"):
+                    if "rfrev" in solver and len(rf) < 2:
+                        continue
+                    if solver != "SolveUnc" and solver != "FreqDirect" and (incrb not in ("dva", "", "a") or fname != "dense"):
+                        continue
                     case = dict(fset=fsname, force=fname, incrb=incrb, rf_disp_only=rdo, solver=solver)
                     tag = "%s/%s" % (solver, sysd["name"])
-                    if solver == "FreqDirect" and rb and (freq == 0).any():
+                    if solver.startswith("FreqDirect") and rb and (freq == 0).any():
                         res.exit("FreqDirect at 0 Hz with rigid-body modes (documented singular)")
                         continue
                     try:
@@ -180,6 +186,12 @@ def run_system(sysd, tier, res, fsets=None):
                             warnings.simplefilter("ignore")
                             if solver == "SolveUnc":
                                 ts = ode.SolveUnc(*args, rf=rfarg)
+                            elif solver == "SolveUnc(h)":  # the same object also serves time-domain solves
+                                ts = ode.SolveUnc(*args, h=0.01, rf=rfarg)
+                            elif solver == "SolveUnc(rfrev)":  # partition given as an unsorted index vector
+                                ts = ode.SolveUnc(*args, rf=rf[::-1])
+                            elif solver == "FreqDirect(rfrev)":
+                                ts = ode.FreqDirect(*args, rf=rf[::-1])
                             else:
                                 ts = ode.FreqDirect(*args, rf=rfarg)
                             sol = ts.fsolve(F.copy(), freq.copy(), incrb=incrb, rf_disp_only=rdo)
@@ -194,7 +206,7 @@ def run_system(sysd, tier, res, fsets=None):
                         continue
                     ref = reference(M, B, K, rb, el, rf, F, freq, incrb, rdo, solver)
                     msgs = []
-                    xt = condv * 50 if (solver == "SolveUnc" and coupled_eig) else 1.0
+                    xt = condv * 50 if (solver.startswith("SolveUnc") and coupled_eig) else 1.0
                     compare(sol, ref, freq, tag, msgs, res, extra_tol=xt)
                     if not np.array_equal(sol.f, freq):
                         msgs.append("%s: returned frequency vector differs" % tag)
@@ -230,6 +242,9 @@ def systems(tier):
         out.append(modal_to_sys([base4[i] for i in perm], "perm-" + "".join(base4[i]["kind"][1] for i in perm)))
     out.append(modal_to_sys([c01.rb_mode("rb0", 0.0, 1.0), c01.rb_mode("rb0", 0.0, 3.0), c01.rf_mode(1.0)], "rb+rb+rf"))
     out.append(modal_to_sys([c01.rf_mode(1.0), c01.rf_mode(2.0)], "rf+rf"))
+    rfb, rfc = dict(c01.rf_mode(2.0), k=9.0e5), dict(c01.rf_mode(1.0), k=2.5e6)
+    out.append(modal_to_sys([c01.el_mode("u.5", whs[0], 0.5, 1.0), c01.rf_mode(1.0), rfb, rfc], "el+rf3"))
+    out.append(modal_to_sys([rfc, c01.rf_mode(1.0), rfb, c01.el_mode("o1.5", whs[-1], 1.5, 2.0), c01.rb_mode("rb0", 0.0, 2.0)], "rf3+el+rb"))
     # damped rigid-body mode (see known findings)
     out.append(modal_to_sys([c01.rb_mode("rb.5", 0.5, 2.0), c01.el_mode("u.5", whs[0], 0.5, 1.0)], "rbdamped+el"))
     # coupled physical-space systems (complex-mode path), real and complex coefficients
@@ -398,7 +413,7 @@ def shards(tier, seed):
 
 
 def _m_rbdamped(case, msg):
-    return case.get("sysname") == "rbdamped+el" and case.get("solver") == "SolveUnc" and "[0]" in msg
+    return case.get("sysname") == "rbdamped+el" and str(case.get("solver", "")).startswith("SolveUnc") and "[0]" in msg
 
 
 FINDING_MATCHERS = {"C02-damped-rigid-body-fsolve": _m_rbdamped}
